@@ -79,6 +79,19 @@ func (lt *LinkTracker) FinishRequest(requestID graphsync.RequestID) (hasAllBlock
 	return
 }
 
+// MoveRequest transfers everything recorded for the given request to another
+// link tracker, as if the request had made its traversals there, and removes
+// the request from this tracker.
+func (lt *LinkTracker) MoveRequest(requestID graphsync.RequestID, to *LinkTracker) {
+	for _, link := range lt.linksWithBlocksTraversedByRequest[requestID] {
+		to.RecordLinkTraversal(requestID, link, true)
+	}
+	for link := range lt.missingBlocks[requestID] {
+		to.RecordLinkTraversal(requestID, link, false)
+	}
+	lt.FinishRequest(requestID)
+}
+
 // Empty returns true if the link tracker is empty
 func (lt *LinkTracker) Empty() bool {
 	return len(lt.missingBlocks) == 0 && len(lt.traversalsWithBlocksInProgress) == 0
